@@ -168,6 +168,20 @@ func (s *Sim) obs1(q string) string {
 	return "bad"
 }
 
+// errChain renders an error with the errors nested inside it (elaerr.ELAError.InnerError).
+func errChain(err error) string {
+	msg := err.Error()
+	for i := 0; i < 6; i++ {
+		ee, ok := err.(interface{ InnerError() error })
+		if !ok || ee.InnerError() == nil {
+			break
+		}
+		err = ee.InnerError()
+		msg += " <- " + err.Error()
+	}
+	return msg
+}
+
 // Exec runs one op line on the real node.
 func (s *Sim) Exec(t []string) string {
 	s.LastErr = ""
@@ -194,7 +208,7 @@ func (s *Sim) Exec(t []string) string {
 		switch {
 		case err != nil:
 			r = "err"
-			s.LastErr = err.Error()
+			s.LastErr = errChain(err)
 		case orphan:
 			r = "orphan"
 		case inMain:
